@@ -329,7 +329,9 @@ func (g *Gen) namedTemplate() (string, V) {
 		nm := lib.Pick(g.r, names)
 		used[nm] = true
 		end := lib.Pick(g.r, []string{"", "", " ", "\t", "\n"})
-		switch g.r.Intn(4) {
+		switch g.r.Intn(6) {
+		case 4, 5: // IS / IS NOT: meaningful with a nil value too; the name may be the last token of the text
+			parts = append(parts, colOfName[nm]+lib.Pick(g.r, []string{" IS @", " IS NOT @"})+nm+end)
 		case 0:
 			parts = append(parts, "("+colOfName[nm]+" = @"+nm+")")
 		case 1:
@@ -351,7 +353,15 @@ func (g *Gen) namedTemplate() (string, V) {
 			entries = append(entries, named(nm, val(nm)))
 		}
 	}
-	switch g.r.Intn(3) {
+	src := g.r.Intn(3)
+	if src != 0 { // sql.Named / map sources can carry an untyped nil (a struct field cannot)
+		for i := range entries {
+			if g.r.Chance(1, 4) {
+				entries[i] = named(entries[i].S, vNil())
+			}
+		}
+	}
+	switch src {
 	case 0:
 		// struct source: all three fields exist
 		have := map[string]bool{}
@@ -931,7 +941,7 @@ func (g *Gen) rawFin() Fin {
 		g.exec = false
 		return Fin{K: "raw", S: "SELECT * FROM items WHERE name <> 'a@b.c' AND id IN (?) AND code = ?", L: []V{g.list(0, true), g.scalar()}}
 	}
-	if g.r.Chance(1, 4) {
+	if g.r.Chance(1, 3) {
 		// named
 		ex := g.r.Bool()
 		tmpl := "SELECT * FROM items WHERE name = @name OR (code = @code AND name <> @name)"
@@ -940,7 +950,20 @@ func (g *Gen) rawFin() Fin {
 			tmpl = "UPDATE items SET code = @code WHERE name = @name;"
 			k = "exec"
 		}
-		args := []V{named("name", g.str()), named("code", g.scalar())}
+		if g.r.Bool() { // the last token of the text is a name
+			tmpl = "SELECT * FROM items WHERE code = @code OR name IS NOT @name"
+			if ex {
+				tmpl = "UPDATE items SET code = @code WHERE name IS @name"
+			}
+		}
+		nameV, codeV := g.str(), g.scalar()
+		if g.r.Chance(1, 3) {
+			nameV = vNil()
+		}
+		if g.r.Chance(1, 4) {
+			codeV = vNil()
+		}
+		args := []V{named("name", nameV), named("code", codeV)}
 		if g.r.Bool() {
 			args = []V{{T: "VNameSrc", Go: "map", L: args}}
 			sortNamed(args[0].L)
